@@ -83,6 +83,12 @@ def h_active(sx):
             def get(self, category, default=None):
                 return self.use_value(inner.get(category, default))
         prov = P2()
+    elif kind == "atvp-real":
+        # behave's own provider class on a plain dict: knowledge of a category is decided when the dict is built
+        prov = ActiveTagValueProvider({c: v for c, v in values.items() if sx.bool("known:%s" % c)})
+    elif kind == "composite-real":
+        prov = CompositeActiveTagValueProvider([ActiveTagValueProvider({c: v for c, v in values.items() if c == "os" and sx.bool("known:%s" % c)}),
+                                                {c: v for c, v in values.items() if c != "os" and sx.bool("known:%s" % c)}])
     elif kind == "composite":
         prov = CompositeActiveTagValueProvider([Provider(sx, {"os": values["os"]}), Provider(sx, {"ver": values["ver"], "flag": values["flag"]})])
     matcher = ActiveTagMatcher(prov)
@@ -159,7 +165,8 @@ def jobs(tier, seed):
     js = []
     slots = 2 if tier == "quick" else 3
     variants = [{"ver_compare": "ge"}, {"ver_compare": "le", "lazy": True}, {"ver_compare": "eq", "provider": "atvp"},
-                {"ver_compare": "ge", "provider": "composite"}, {"ver_compare": "ge", "composite_matcher": True}]
+                {"ver_compare": "ge", "provider": "composite"}, {"ver_compare": "ge", "composite_matcher": True},
+                {"ver_compare": "ge", "provider": "atvp-real"}, {"ver_compare": "le", "provider": "composite-real"}]
     for i, v in enumerate(variants):
         js.append(Job("active.v%d" % i, "props.c19:h_active", dict(v, slots=slots if i == 0 else 2),
                       reach=["C19.excluded==documented-formula"], min_paths=100, cost=1000 if i == 0 else 100,
